@@ -17,8 +17,11 @@ META = {
             "a lopdf built without rayon; all digests of the projected document (objects, trailer, max_id, version) must coincide. "
             "Filtered loading (Reader::read with a caller's filter) is modelled as the variable drop of ParallelLoad and checked the same way: TLC over every filter of "
             "the bounded universe (Deterministic, LatestWins, FilterRestricts), the real loader with six pure filters under pools, forced orders and the rayon-free build, "
-            "judged by Trace_ParallelLoad!JudgeFiltered.",
-    "note": "Trusted: TLC, the transcription of the parallel phase in ParallelLoad.tla, hook H1 (src/verif_hooks.rs, 40 lines, compiled only with --cfg lopdf_verif), "
+            "judged by Trace_ParallelLoad!JudgeFiltered. Deferred streams (content filled in after the merge because their Length is a compressed object; pushed by the "
+            "workers in completion order) are the variables defer/late/filled: TLC checks that every stream whose late read can succeed is filled in whatever the "
+            "others do (AllFilled) and refutes a loader that stops at the first failure; on the real loader the order is forced ascending and descending through hook H2, "
+            "on files where one such stream has lost its Length.",
+    "note": "Trusted: TLC, the transcription of the parallel phase in ParallelLoad.tla, hooks H1 and H2 (src/verif_hooks.rs, 70 lines, compiled only with --cfg lopdf_verif), "
             "the FNV digest of the projection. Real thread schedules are sampled; the order in which blocks reach the merge is enumerated exhaustively for n <= 6.",
     "bins": ["c02", "c08"],
     "seq_bins": ['c08seq'],
@@ -43,6 +46,12 @@ def run(tier):
     r = tlc("MC_ParallelLoad.tla", "MC_ParallelLoad_filterw.cfg", workers=4, timeout=1800, allow_violation=True, name="pl-filterw")
     if r.violation != "WitnessFilter":
         raise vlib.ToolError("vacuous: no modelled filter removes an object the plain load has")
+    # deferred streams (filled in after the merge, pushed in completion order): each on its own
+    r = tlc("MC_ParallelLoad.tla", "MC_ParallelLoad_defer.cfg", workers=4, timeout=1800, name="pl-defer")
+    chk.add_tlc(r)
+    r = tlc("MC_ParallelLoad.tla", "MC_ParallelLoad_deferstop.cfg", workers=4, timeout=1800, allow_violation=True, name="pl-deferstop")
+    if r.violation != "Deterministic":
+        raise vlib.ToolError("vacuous: a loader that stops filling in at the first failure is not refuted by the model")
     r = tlc("MC_ParallelLoad.tla", "MC_ParallelLoad_asis.cfg", workers=4, timeout=1800, allow_violation=True, name="pl-asis")
     if r.violation != "Deterministic":
         raise vlib.ToolError("vacuous: the pre-repair merge (first block wins) is not refuted by the model")
@@ -120,6 +129,22 @@ def run(tier):
                 g["bytes"] = list(nb)
                 g["intvariant"] = True
                 ivars.append(g)
+    # variants in which one stream with an indirect Length loses its Length key (same byte length: "Lengtx"): its late
+    # read fails, the other deferred streams must still be filled in, in every order
+    nolen = []
+    for f in files:
+        b = bytes(f["bytes"])
+        SEPL = rb"(?:[ \r\n\t\x0c\x00]|%[^\r\n]*[\r\n])+"
+        occ = list(re.finditer(rb"/Length(?=" + SEPL + rb"\d+" + SEPL + rb"\d+" + SEPL + rb"R)", b))
+        if len(occ) >= 2:
+            for m in occ[:3]:
+                g = dict(f)
+                g["bytes"] = list(b[:m.start()] + b"/Lengtx" + b[m.end():])
+                g["nolength"] = True
+                nolen.append(g)
+    nolen = nolen[:30 if tier == "quick" else 300]
+    chk.extra["variants_with_a_stream_that_lost_its_length"] = len(nolen)
+    files = files + nolen
     files = files + ivars[:12 if tier == "quick" else 100]
     chk.extra["integer_object_variants"] = len(ivars[:12 if tier == "quick" else 100])
     if len(dups) < 3:
@@ -169,6 +194,12 @@ def run(tier):
     if forced < 50 and not chk.violations:
         raise vlib.ToolError("vacuous: only %d loads with a forced completion order" % forced)
     chk.extra["loads_with_forced_order"] = forced
+    dl = [r for r in recs if r["kind"] == "defer"]
+    chk.extra["loads_with_forced_deferred_order"] = len(dl)
+    chk.extra["of_those_with_a_failing_late_read"] = sum(1 for r in dl if files[r["file"]].get("nolength"))
+    if (len(dl) < 20 or chk.extra["of_those_with_a_failing_late_read"] < 6) and not chk.violations:
+        raise vlib.ToolError("vacuous: %d loads with a forced order of the deferred streams, %d of them with a failing late read"
+                             % (len(dl), chk.extra["of_those_with_a_failing_late_read"]))
     chk.extra["filtered_loads_by_verdict"] = dict(nfiltered)
     if nfiltered["ok-filtered-drop"] < 100 and not chk.violations:
         raise vlib.ToolError("vacuous: only %d filtered loads in which the filter dropped something" % nfiltered["ok-filtered-drop"])
